@@ -106,7 +106,7 @@ def findings_of_exp(exp, min_level='info'):
             notes += [('fail', t) for t in l['fail']] + [('warn', t) for t in l['warn']] + [('info', t) for t in l['info']]
             for lv, t in notes:
                 if rank[lv] >= rank[min_level]:
-                    F.add((cat, i, l['name'], lv, t))
+                    F.add((cat, i, l['name'], lv, rating.canon(t)))
     return F
 
 
@@ -122,7 +122,7 @@ def findings_of_text(tx, exp):
                 pos += 1
             idx = pos if pos < len(names) else -1
             for lv, t in a['notes']:
-                F.add((cat, idx, a['name'], lv, t))
+                F.add((cat, idx, a['name'], lv, rating.canon(t)))
             pos += 1
     return F
 
@@ -218,7 +218,7 @@ def cli_leg(ck, tier, rnd):
                 for i, a in enumerate(ja[cat]):
                     for lv in ('fail', 'warn', 'info'):
                         for t in a['notes'].get(lv) or []:
-                            got.add((cat, i, a['name'], lv, t))
+                            got.add((cat, i, a['name'], lv, rating.canon(t)))
             known = {(cat, i) for cat in exp['lines'] for i, l in enumerate(exp['lines'][cat]) if not l['unknown']}
             gk = {f for f in got if (f[0], f[1]) in known}
             fk = {f for f in F if (f[0], f[1]) in known}
